@@ -18,5 +18,11 @@ for r in rows:
     out.append('| %s | %s | %s | %s | %s |' % r)
 n = len(rows); k = sum(1 for r in rows if r[4] == 'yes'); a = sum(1 for r in rows if r[3] != '— none —')
 out += ['', '%d changes kept; %d reported by the check of the property they were written against, %d reported by at least one check.' % (n, k, a)]
+ret = sorted(glob.glob('/verif/seeded/retired/*/meta.json'))
+if ret:
+    out += ['', '## Retired', '', 'Changes whose lines were later rewritten by the repair of a genuine defect (they no longer apply to /repo HEAD):', '']
+    for m in ret:
+        d = json.load(open(m))
+        out.append('* %s — %s' % (d['id'], d['status']))
 open('/verif/seeded/RESULTS.md', 'w').write('\n'.join(out) + '\n')
 print('\n'.join(out[-1:]))
